@@ -46,6 +46,12 @@ def dispatch (op : String) (f : List Text) : String :=
   | "http.tagsha", f => httpTagSha f
   | "bump.ok", label :: cur :: t :: vs => tf (Spec.BumpSpec.acceptable (String.ofList label) cur t vs)
   | "bump.due", label :: cur :: vs => tf (Spec.BumpSpec.due (String.ofList label) cur vs)
+  | "bump.covered", label :: cur :: n :: rest =>
+    -- a line on which a target is due must be served by one of the offered targets (lines may share a target)
+    let targets := rest.take (natOfText n)
+    let vs := rest.drop (natOfText n)
+    let l := String.ofList label
+    tf (!(Spec.BumpSpec.due l cur vs) || targets.any fun t => Spec.BumpSpec.acceptable l cur t vs)
   | "spec.judge", [eco, spec, v] =>
     match String.ofList eco with
     | "npm" | "pnpm" | "jsr" => s!"{specNpmSat spec v} {specNpmFrag spec}"
